@@ -49,6 +49,8 @@ def shards(tier):
     out.append(("setgroups_faults",))
     for a0 in range(0, 64, 8):
         out.append(("addr_sweep", a0, a0 + 8))
+    for i in range(len(interleave_scenarios())):
+        out.append(("interleaved", i))
     return out
 
 
@@ -231,9 +233,96 @@ def check_setgroups(res, dest, emask, rmask, fault=None, sa=5, GSEL=3):
             add_violation(res, f"C08:SetGroups:unnecessary-changes:{dest}", f"{case}: issued {changes}, necessary {sorted(exp)}", case)
 
 
+def interleave_scenarios():
+    """Sequences an application may have alive at the same time (one per bus / driver)."""
+    out = []
+    for e, r in ((0x0028, 0x0002), (0xFFFF, 0), (0, 0xFFFF), (0x0206, 0x020C)):
+        for gsel in (3, 5):
+            out.append(("setgroups", "group", e, r, gsel))
+        out.append(("setgroups", "short", e, r, 3))
+    out.append(("setgroups", "broadcast", 0x0028, 0x0100, 3))
+    out.append(("setgroups", "unaddressed", 0x0028, 0x0100, 3))
+    out.append(("qgroups", 0xA5C3))
+    out.append(("dtlist", (4, 6, 8)))
+    return out
+
+
+def _build_scenario(sc):
+    """-> (generator, bus, judge) with judge() -> None | text; every scenario has its own bus and units."""
+    from dali.sequences import SetGroups, QueryGroups, QueryDeviceTypes
+    from dali.address import GearShort, GearGroup, GearBroadcast, GearBroadcastUnaddressed
+    sa = 5
+    if sc[0] == "qgroups":
+        unit = G.Gear(short=sa, groups=groups_of(sc[1]))
+        bus = G.Bus([unit, G.Gear(short=sa + 1, groups={0, 15})])
+        return QueryGroups(GearShort(sa)), bus, lambda kind, val: None if (kind, val) == ("return", groups_of(sc[1])) else f"{kind} {val!r}"
+    if sc[0] == "dtlist":
+        unit = G.Gear(short=sa, devicetypes=list(sc[1]))
+        bus = G.Bus([unit, G.Gear(short=sa + 1, devicetypes=[2, 3])])
+        return QueryDeviceTypes(GearShort(sa)), bus, lambda kind, val: None if (kind, val) == ("return", sorted(sc[1])) else f"{kind} {val!r}"
+    _, dest, emask, rmask, gsel = sc
+    existing, requested = groups_of(emask), groups_of(rmask)
+    if dest == "short":
+        target, others, addr = [G.Gear(short=sa, groups=existing)], [G.Gear(short=sa + 1, groups={1, 9})], GearShort(sa)
+    elif dest == "group":
+        target = [G.Gear(short=sa, groups=existing | {gsel}), G.Gear(short=sa + 4, groups={gsel, 15, 8})]
+        others, addr = [G.Gear(short=sa + 1, groups={1, 9} - {gsel})], GearGroup(gsel)
+    elif dest == "unaddressed":
+        target = [G.Gear(short=None, groups=existing), G.Gear(short=None, groups={0, 7, 8})]
+        others, addr = [G.Gear(short=sa, groups={1, 9})], GearBroadcastUnaddressed()
+    else:
+        target, others, addr = [G.Gear(short=sa, groups=existing), G.Gear(short=None, groups={0, 7, 8})], [], GearBroadcast()
+    bus = G.Bus(target + others)
+    before = [set(o.groups) for o in others]
+
+    def judge(kind, val):
+        if kind != "return":
+            return f"{kind} {val!r}"
+        for t in target:
+            if t.groups != requested:
+                return f"a unit ends in groups {sorted(t.groups)}, requested {sorted(requested)}"
+        if [set(o.groups) for o in others] != before:
+            return "a unit that was not addressed changed"
+        return None
+    return SetGroups(addr, set(requested)), bus, judge
+
+
+def check_interleaved(res, i):
+    """Scenario i alive together with every other scenario, each on its own bus: the other one runs to completion after the
+    k-th command of scenario i (every k), before it has started, and command-by-command in alternation."""
+    scs = interleave_scenarios()
+    a = scs[i]
+    ga, ba, ja = _build_scenario(a)
+    na = G.run_sequence(ga, ba, CAP)[2]
+    for j, b in enumerate(scs):
+        for k in list(range(1, na + 1)) + ["alt", "b-first"]:
+            ga, ba, ja = _build_scenario(a)
+            gb, bb, jb = _build_scenario(b)
+            if k == "b-first":
+                # both generators created, B driven first
+                done = G.run_interleaved([gb, ga], [bb, ba], CAP, pattern=(10 ** 6, 10 ** 6))[::-1]
+            else:
+                done = G.run_interleaved([ga, gb], [ba, bb], CAP, pattern=(1, 1) if k == "alt" else (k, 10 ** 6))
+            res["transitions"] += done[0][2] + done[1][2]
+            res["traces"] += 1
+            res["evaluations"] += 1
+            case = {"t": "interleaved", "i": i, "j": j, "k": k}
+            for who, d, judge, sc in (("first", done[0], ja, a), ("second", done[1], jb, b)):
+                bad = judge(d[0], d[1])
+                if bad:
+                    add_violation(res, f"C08:interleaved:{sc[0]}:{sc[1] if sc[0] == 'setgroups' else ''}",
+                                  f"sequences {a} and {b} alive together on two buses (switch {k}): the {who} one: {bad}", case)
+    res["states"] += 1
+    res["distinct"].add(("interleaved", a[0], a[1]))
+
+
 def run_shard(shard):
     res = new_result()
     k = shard[0]
+    if k == "interleaved":
+        check_interleaved(res, shard[1])
+        sample(res, {"interleaved_scenario": list(map(str, interleave_scenarios()[shard[1]])), "partners": len(interleave_scenarios())})
+        return res
     if k == "dt_lists":
         lists = []
         for L in range(0, 6):
@@ -357,6 +446,8 @@ def replay(case):
         print("   outcome:", r, " reference:", ref_stream_outcome(s))
     elif t == "dtlist":
         check_dt_list(res, case["types"], case.get("sa", 3), case.get("as_int", False))
+    elif t == "interleaved":
+        check_interleaved(res, case["i"])
     elif t == "qgroups":
         check_qgroups(res, case["mask"], tuple(case["fault"]) if case["fault"] else None, case.get("sa", 7), case.get("as_int", False))
     else:
